@@ -7,6 +7,7 @@
 // ways: W=bump  in.bump( k ); in.position()
 //       W=parse in.position() from an action fired DURING parse< seq< rep< k, any >, mark, must< failure > > >
 //       W=error parse_error::position_object() of the exception raised by that must< failure >
+//       W=notone / notrange / rematch  the K bytes consumed by negated sets resp. position seen by the second rule of a rematch
 // and at / begin_of_line / end_of_line / line_at are evaluated on it.  One output line per
 // (case, k, distinct result); W lists the ways that produced exactly this result.
 //
@@ -209,6 +210,42 @@ namespace
          }
          else {
             add( res, "until", " NOACTION" );
+         }
+      }
+      {
+         // further ways to consume the K bytes: negated character sets (their bump must treat a consumed line ending like
+         // any other rule does), and the second rule of a rematch< Head, R1, R2 > whose head starts after J = ( K + 1 ) / 2
+         // bytes (the inner input of every re-matched rule must carry the head's start position)
+         constexpr std::size_t J = ( K + 1 ) / 2;
+         {
+            input_t in( a.data, a.data + a.size, "c19", c.b0, c.l0, c.c0 );
+            seen s;
+            try {
+               (void)parse< seq< rep< K, not_one< '\1' > >, mark, must< failure > >, act >( in, s );
+            }
+            catch( const parse_error& ) {
+            }
+            add( res, "notone", s.pos ? helpers( in, a, *s.pos ) : std::string( " NOACTION" ) );
+         }
+         {
+            input_t in( a.data, a.data + a.size, "c19", c.b0, c.l0, c.c0 );
+            seen s;
+            try {
+               (void)parse< seq< rep< J, not_range< '\1', '\2' > >, rep< K - J, not_one< '\1', '\2' > >, mark, must< failure > >, act >( in, s );
+            }
+            catch( const parse_error& ) {
+            }
+            add( res, "notrange", s.pos ? helpers( in, a, *s.pos ) : std::string( " NOACTION" ) );
+         }
+         {
+            input_t in( a.data, a.data + a.size, "c19", c.b0, c.l0, c.c0 );
+            seen s;
+            try {
+               (void)parse< seq< rep< J, any >, rematch< rep< K - J, any >, success, seq< rep< K - J, any >, mark > >, must< failure > >, act >( in, s );
+            }
+            catch( const parse_error& ) {
+            }
+            add( res, "rematch", s.pos ? helpers( in, a, *s.pos ) : std::string( " NOACTION" ) );
          }
       }
       for( const auto& e : res ) {
